@@ -185,10 +185,13 @@ PROPS = {
         "assumptions": [
             "a borrowed guard excludes every other use of the stopwatch (borrow checker), so it is modelled as one compound op; the exhaustive part allows 2 concurrently live owned guards, the random part 3",
             "overwrite means: the total becomes this guard's span (the code's documented behaviour); clear removes the total, spans completing afterwards count in full",
+            "guards ended concurrently are only stopped, dropped or discarded (a concurrent overwrite has no order-independent expected total); the clock does not advance during the race, so every span is known exactly",
         ],
         "coverage_extra": {"quick": {"exhaustive": False}, "thorough": {"exhaustive": False}},
         "legs": [
             native("c18_timers", ["secs=5", "depth=8"], ["secs=60", "depth=9"]),
+            miri("c18_timers", 8, 32, [0, 1], [0, 1, 2, 3]),
+            native("c18_timers", t=["tiny=1", "rounds=20000"], name="tsan", flavour="tsan", tiers=("thorough",)),
         ],
     },
     "C19": {
